@@ -73,6 +73,7 @@ func (e *Exec) opaqueInt(x Int) Int {
 
 func (e *Exec) opaqueUnk() Int {
 	e.nopaque++
+	e.declUF("unk_eq", "(Int Int) Bool")
 	return Int{W: 8, X: &Opaque{Kind: "unk", ID: e.nopaque}}
 }
 
@@ -159,13 +160,55 @@ func (e *Exec) fmtArg(verb byte, a value) []Int {
 }
 
 func (e *Exec) sprintf(format string, args []value) []Int {
+	return e.sprintfSym(strBytes(format), args)
+}
+
+// sprintfV is Sprintf with a format that may itself hold symbolic bytes (a
+// format built by concatenation with data).
+func (e *Exec) sprintfV(format value, args []value) []Int {
+	switch f := format.(type) {
+	case string:
+		return e.sprintf(f, args)
+	case SStr:
+		return e.sprintfSym(f.B, args)
+	}
+	panic(inconclusive{"Sprintf format is neither a string nor a symbolic string"})
+}
+
+// sprintfSym: a symbolic format byte is a literal unless it is '%' (one fork
+// per symbolic byte); when it is '%', or when a verb or flag position holds a
+// symbolic byte, everything from there on is an unknown string (what fmt
+// prints then depends on the bytes that follow), which no comparison can
+// prove equal to anything: candidates are settled by native replay.
+func (e *Exec) sprintfSym(format []Int, args []value) []Int {
 	var out []Int
 	ai := 0
+	isPct := func(b Int) bool {
+		if b.X != nil {
+			switch b.X.Kind {
+			case "d", "u", "g":
+				return false // formatted numbers hold no '%'
+			}
+			return true // unknown text: may hold a verb
+		}
+		if b.isConc() {
+			return byte(b.C) == '%'
+		}
+		return e.cmpByte(b, mkByte('%'))
+	}
+	conc := func(b Int) (byte, bool) {
+		if b.X != nil || !b.isConc() {
+			return 0, false
+		}
+		return byte(b.C), true
+	}
 	for i := 0; i < len(format); i++ {
-		c := format[i]
-		if c != '%' {
-			out = append(out, mkByte(c))
+		if !isPct(format[i]) {
+			out = append(out, format[i])
 			continue
+		}
+		if _, ok := conc(format[i]); !ok {
+			return append(out, e.opaqueUnk())
 		}
 		i++
 		if i >= len(format) {
@@ -174,14 +217,21 @@ func (e *Exec) sprintf(format string, args []value) []Int {
 		}
 		// flags / width are not modelled: opaque result for that operand
 		plain := true
-		for i < len(format) && strings.IndexByte("+-# 0123456789.", format[i]) >= 0 {
+		for i < len(format) {
+			c, ok := conc(format[i])
+			if !ok {
+				return append(out, e.opaqueUnk())
+			}
+			if strings.IndexByte("+-# 0123456789.", c) < 0 {
+				break
+			}
 			plain = false
 			i++
 		}
 		if i >= len(format) {
 			break
 		}
-		v := format[i]
+		v, _ := conc(format[i])
 		if v == '%' {
 			out = append(out, mkByte('%'))
 			continue
@@ -446,7 +496,7 @@ func init() {
 
 	stubs["fmt.Sprintf"] = func(e *Exec, fn *ssa.Function, args []value) value {
 		va, _ := args[1].([]value)
-		return mkStr(e.sprintf(argStr(args[0]), va))
+		return mkStr(e.sprintfV(args[0], va))
 	}
 	stubs["fmt.Sprint"] = func(e *Exec, fn *ssa.Function, args []value) value {
 		va, _ := args[0].([]value)
@@ -480,7 +530,7 @@ func init() {
 	}
 	stubs["fmt.Fprintf"] = func(e *Exec, fn *ssa.Function, args []value) value {
 		va, _ := args[2].([]value)
-		return fprint(e, args[0].(iface), e.sprintf(argStr(args[1]), va))
+		return fprint(e, args[0].(iface), e.sprintfV(args[1], va))
 	}
 	stubs["fmt.Fprint"] = func(e *Exec, fn *ssa.Function, args []value) value {
 		va, _ := args[1].([]value)
